@@ -49,6 +49,15 @@ func init() {
 		}
 		return L(out...)
 	}
+	// widening: the exported tables of bitmap/mask.go; an index outside the array panics (P)
+	Exec["bitmap.Mask"] = func(a []V) string {
+		i := a[0].Int()
+		return L(U(bitmap.Mask[i]), U(bitmap.RMask[i]))
+	}
+	Exec["bitmap.Bit"] = func(a []V) string {
+		i := a[0].Int()
+		return L(U(bitmap.MaskUpto[i]), U(bitmap.RMaskUpto[i]), U(bitmap.Bit[i]), U(bitmap.RBit[i]))
+	}
 	Register("C12", genC12)
 }
 
@@ -348,4 +357,16 @@ func genC12(g *Gen) {
 		g.Stat(fmt.Sprintf("builder-mode%d", mode))
 		g.Do("bitmap.Builder", L(Int(n), L(ops...)), key)
 	}
+
+	// (6) widening: every entry of the six mask tables, and the first indices outside
+	for i := -2; i <= 66; i++ {
+		key := fmt.Sprintf("Mask/%s", c13Off(i))
+		if i < 0 || i > 64 {
+			key = "Mask/outside"
+		}
+		g.Stat("mask-table")
+		g.Do("bitmap.Mask", L(Int(i)), key)
+		g.Do("bitmap.Bit", L(Int(i)), key)
+	}
+	g.Exhaust = append(g.Exhaust, "Mask/RMask[0..64], MaskUpto/RMaskUpto/Bit/RBit[0..63]: every entry, plus indices -2,-1 and 64/65,66 (panic)")
 }
